@@ -1029,7 +1029,7 @@ def effects(pdb, ctx, root=None):
             continue
         k = n.get("k")
         if k in ("Assign", "AssignOp"):
-            l = strip(n["l"])
+            l = strip(deref(n["l"]))
             lk = l.get("k")
             kind = None
             if lk == "Index":
@@ -1547,6 +1547,226 @@ def _reaching_values(ctx, var, exclude=None, at=None):
         else:
             out.append(("opaque", a.get("id")))
     return out
+
+
+def value_before(ctx, var, at, depth=0):
+    """Term of the value local `var` holds just before node `at`, when it is determined by straight-line code:
+    the last whole assignment / `let` textually before `at` that is not nested in a branch or loop which excludes
+    `at`; the variable's own occurrences in that right-hand side are replaced by its value before the assignment
+    (so `let mut x = b.clone(); x = P * x` and `let mut x = P * b.clone()` give the same term).  None when an
+    element write, a `&mut` borrow or a conditional assignment intervenes."""
+    if var[0] != "var" or depth > 8:
+        return None
+    b = ctx.binds.get(var[1])
+    if b is None or b.kind != "let" or b.proj:
+        return None
+    tp = _npos(at)
+    at_anc = set(id(x) for x in ancestors(at)) | {id(at)}
+    last = None
+    for kind, m in ctx.mutations.get(var, []):
+        mp = _npos(m)
+        if m is at:
+            continue
+        if not mp < tp or any(a is m for a in ancestors(at)):
+            # a mutation after `at`, or `at` is inside the mutating statement itself: but one in a shared loop still reaches
+            if _shared_loop(m, at, b.node):
+                return None
+            continue
+        if last is None or _npos(last[1]) < mp:
+            last = (kind, m)
+    if last is None:
+        return ctx.term(b.init) if b.init is not None else None
+    kind, m = last
+    if m.get("k") == "MethodCall" and m.get("name") == "fill" and len(m.get("args", [])) == 1 and strip(deref(m["recv"])).get("k") == "Local":
+        # v.fill(x) on a Vec / slice: every element becomes x, the length stays
+        p = str(callee_path(m) or "")
+        if "[T]" in p or "slice" in p:
+            for a in ancestors(m):
+                if a.get("k") in ("If", "Match", "For", "While", "Loop", "Closure") and id(a) not in at_anc:
+                    return None
+            from .guards import _known_len
+            ln = _known_len(ctx, LEN(var))
+            return ("call", "std::vec::from_elem", ctx.term(m["args"][0]), ln)
+    if m.get("k") != "Assign" or strip(m["l"]).get("k") != "Local":
+        return None
+    # the assignment must dominate `at`: every enclosing If/loop of m also encloses `at`
+    for a in ancestors(m):
+        if a.get("k") in ("If", "Match", "For", "While", "Loop", "Closure") and id(a) not in at_anc:
+            return None
+    rhs = ctx.term(m["r"])
+    if _mentions_term(rhs, var):
+        prev = value_before(ctx, var, m, depth + 1)
+        if prev is None:
+            return None
+        rhs = subst_term(rhs, {var: prev})
+    return rhs
+
+
+def _shared_loop(m, at, letnode):
+    let_anc = set(id(x) for x in ancestors(letnode)) if letnode is not None else set()
+    la = [p for p in ancestors(m) if p.get("k") in ("For", "While", "Loop") and id(p) not in let_anc]
+    lb = set(id(p) for p in ancestors(at))
+    return any(id(p) in lb for p in la)
+
+
+def _mentions_term(t, x):
+    if t == x:
+        return True
+    return isinstance(t, tuple) and any(_mentions_term(y, x) for y in t if isinstance(y, tuple))
+
+
+def index_sequence(rng, k):
+    """For a loop range rng = (v, lo, hi, inclusive, reversed) and an index term k = +-v + c, the (first, last,
+    direction) of the values k takes, direction -1 = descending; None if k is not such a function of v."""
+    from .terms import lin_parts, lin_sub, lin_add, num
+    if rng is None:
+        return None
+    v, lo, hi, incl, rev = rng
+    c, atoms = lin_parts(k)
+    a = atoms.get(v)
+    if a not in (1, -1):
+        return None
+    rest = lin_sub(k, v) if a == 1 else lin_add(k, v)
+    if _mentions_term(rest, v):
+        return None
+    v_lo = lo
+    v_hi = hi if incl else lin_add(hi, num(-1))
+    v_first, v_last = (v_hi, v_lo) if rev else (v_lo, v_hi)
+    kf = lin_add(rest, v_first) if a == 1 else lin_sub(rest, v_first)
+    kl = lin_add(rest, v_last) if a == 1 else lin_sub(rest, v_last)
+    direction = (1 if a == 1 else -1) * (-1 if rev else 1)
+    return kf, kl, direction
+
+
+def return_paths(ctx, fn=None):
+    """[(facts, value term, node)] for every way the function returns a value: explicit `return e` statements and the
+    leaves of the tail expression (through if/else chains and blocks), each with the facts known there."""
+    from .guards import facts as _facts
+    fn = fn or ctx.fn
+    out = []
+    for n in walk(fn["body"]):
+        if n.get("k") == "Ret" and n.get("e") is not None and not in_macro(n):
+            if any(a.get("k") == "Closure" for a in ancestors(n)):
+                continue
+            out.append((_facts(ctx, n), ctx.term(n["e"]), n))
+
+    def leaves(e):
+        e0 = e
+        e = strip(e)
+        if e.get("k") == "If" and e.get("else") is not None:
+            leaves(e["then"])
+            leaves(e["else"])
+        elif e.get("k") == "Block" and e.get("expr") is not None and not e.get("m"):
+            leaves(e["expr"])
+        else:
+            out.append((_facts(ctx, e), ctx.term(e), e))
+    tail = fn["body"].get("expr")
+    if tail is not None:
+        leaves(tail)
+    return out
+
+
+def place_ref(pdb, ctx, n, eqs=None):
+    """Canonical description of the storage place an lvalue-ish expression denotes: for an element of a strided 2-D
+    container ('elem2', owner, row, col) however it is addressed (`m[(r,c)]` or `m.mat[r*stride + c]`), for a 1-D
+    element ('elem1', base, index), else ('place', term).  eqs: {term: term} equalities known at the site (e.g.
+    rows -> cols in a square branch) applied to flat indices before they are split."""
+    n = strip(deref(n))
+    if n.get("k") == "Index":
+        if eqs:
+            r = _flat_elem(pdb, ctx, n["base"], subst_term(ctx.term(n["idx"]), eqs))
+            if r is not None:
+                return r
+        er = elem_ref(pdb, ctx, n)
+        if er is not None and len(er) == 3:
+            return ("elem2", er[0], er[1], er[2])
+        if er is not None:
+            return ("elem1", er[0], er[1])
+    return ("place", ctx.term(n))
+
+
+def _flat_elem(pdb, ctx, base, it):
+    bt = ctx.term(base)
+    b0 = strip(deref(base))
+    if bt[0] == "field" and b0.get("k") == "Field":
+        oadt = adt_of(ty_of(b0["e"]))
+        st = container_stride(pdb, oadt) if oadt in DIM_FAMILIES else None
+        if st is not None and st[0] == bt[2]:
+            S = ("field", bt[1], st[1])
+            sp = split_flat(it, S)
+            if sp is not None:
+                return ("elem2", bt[1], sp[0], sp[1])
+    return None
+
+
+def swap_events(pdb, ctx, root, eqs=None):
+    """Exchanges of two storage places performed below `root`, whatever the idiom:
+         mem::swap(&mut A, &mut B)                         X.swap(p, q)   (Vec / slice / Vector element exchange)
+         let mut t = A; mem::swap(&mut B, &mut t); A = t;  let t = A; A = B; B = t;
+       -> [(placeA, placeB, node)] with places as in place_ref."""
+    out = []
+    used = set()
+    for n in walk(root):
+        if in_macro(n):
+            continue
+        k = n.get("k")
+        if k == "Call" and callee_path(n) in ("std::mem::swap", "core::mem::swap") and len(n.get("args", [])) == 2:
+            a, b = n["args"]
+            pa, pb = place_ref(pdb, ctx, a, eqs), place_ref(pdb, ctx, b, eqs)
+            # temp idiom: one side is a local temp initialised from A and written back to A afterwards
+            for tmp_side, other in ((pa, pb), (pb, pa)):
+                if tmp_side[0] == "place" and tmp_side[1][0] == "var":
+                    tb = ctx.binds.get(tmp_side[1][1])
+                    if tb is not None and tb.kind == "let" and tb.init is not None:
+                        src = place_ref(pdb, ctx, _first_index_node(tb.init), eqs)
+                        backs = [m for m in ctx.assigns.get(tmp_side[1][1], [])]
+                        wb = [x for x in walk(root) if x.get("k") == "Assign" and strip(x["r"]).get("k") == "Local" and strip(x["r"])["v"] == tmp_side[1][1]
+                              and _npos(x) > _npos(n)]
+                        if not backs and len(wb) == 1 and place_ref(pdb, ctx, wb[0]["l"], eqs) == src and _npos(tb.node) < _npos(n):
+                            out.append((src, other, n))
+                            used.add(id(n))
+                            break
+            if id(n) not in used:
+                out.append((pa, pb, n))
+        elif k == "MethodCall" and n.get("name") == "swap" and len(n.get("args", [])) == 2:
+            p = str(callee_path(n) or "")
+            if "[T]" in p or "slice" in p or p.startswith("std::vec::Vec") or p == "vector::Vector<T>::swap":
+                base = n["recv"]
+                ia, ib = (ctx.term(x) for x in n["args"])
+                places = []
+                for it in (ia, ib):
+                    if eqs:
+                        it = subst_term(it, eqs)
+                    fe = _flat_elem(pdb, ctx, base, it)
+                    bt = ctx.term(base)
+                    if bt[0] == "field" and bt[2] == "vec":
+                        bt = bt[1]
+                    places.append(fe if fe is not None else ("elem1", bt, it))
+                out.append((places[0], places[1], n))
+    # let t = A; A = B; B = t;
+    for n in walk(root):
+        if n.get("k") == "Block":
+            st = n.get("stmts", [])
+            for i in range(len(st) - 2):
+                l0, s1, s2 = st[i], st[i + 1], st[i + 2]
+                if l0.get("k") != "Let" or l0.get("init") is None or l0["pat"].get("k") != "Bind":
+                    continue
+                a1 = strip(s1.get("e") or {}) if s1.get("k") in ("Semi", "Expr") else {}
+                a2 = strip(s2.get("e") or {}) if s2.get("k") in ("Semi", "Expr") else {}
+                if a1.get("k") == "Assign" and a2.get("k") == "Assign":
+                    r2 = strip(a2["r"])
+                    if r2.get("k") == "Local" and r2["v"] == l0["pat"]["v"]:
+                        A = place_ref(pdb, ctx, _first_index_node(l0["init"]), eqs)
+                        if place_ref(pdb, ctx, a1["l"], eqs) == A and place_ref(pdb, ctx, _first_index_node(a1["r"]), eqs) == place_ref(pdb, ctx, a2["l"], eqs):
+                            out.append((A, place_ref(pdb, ctx, a2["l"], eqs), a1))
+    return out
+
+
+def _first_index_node(n):
+    n0 = strip(deref(n))
+    if n0.get("k") == "MethodCall" and callee_generic(n0) in CLONE_FNS:
+        return _first_index_node(n0["recv"])
+    return n0
 
 
 def _npos(n):
